@@ -284,7 +284,14 @@ func (r *PaginatedResourceRepository[ResourceType, OptionsType]) Paginate(
 
 	switch v := any(paginationQuery).(type) {
 	case OffsetPaginatedQuery[OptionsType]:
+		// Cursors come back from the client: the column and the order they carry must be valid
+		if err := r.checkCursor(v.InitialPaginatedQuery); err != nil {
+			return nil, err
+		}
 	case ColumnPaginatedQuery[OptionsType]:
+		if err := r.checkCursor(v.InitialPaginatedQuery); err != nil {
+			return nil, err
+		}
 	case InitialPaginatedQuery[OptionsType]:
 
 		if v.Column == "" {
@@ -297,14 +304,10 @@ func (r *PaginatedResourceRepository[ResourceType, OptionsType]) Paginate(
 			v.PageSize = paginate.QueryDefaultPageSize
 		}
 
+		if err := r.checkPaginationColumn(v.Column); err != nil {
+			return nil, err
+		}
 		_, field := r.resourceHandler.Schema().GetFieldByNameOrAlias(v.Column)
-		if field == nil {
-			return nil, fmt.Errorf("invalid property '%s' for pagination", v.Column)
-		}
-
-		if !field.IsPaginated {
-			return nil, newErrNotPaginatedField(v.Column)
-		}
 
 		if field.Type.IsPaginated() {
 			paginationQuery = ColumnPaginatedQuery[OptionsType]{
@@ -336,7 +339,7 @@ func (r *PaginatedResourceRepository[ResourceType, OptionsType]) Paginate(
 	case ColumnPaginatedQuery[OptionsType]:
 		fieldName, field := r.resourceHandler.Schema().GetFieldByNameOrAlias(v.Column)
 		if field == nil {
-			return nil, fmt.Errorf("invalid property '%s' for pagination", v.Column)
+			return nil, NewErrInvalidQuery("invalid property '%s' for pagination", v.Column)
 		}
 		paginator = newColumnPaginator[ResourceType, OptionsType](v, fieldName, field.Type)
 		resourceQuery = v.Options
@@ -372,6 +375,32 @@ func (r *PaginatedResourceRepository[ResourceType, OptionsType]) Paginate(
 	}
 
 	return paginator.BuildCursor(ret)
+}
+
+// checkPaginationColumn tells whether the resource can be sorted and paginated on the column, which
+// comes from the client (sort parameter, cursor).
+func (r *PaginatedResourceRepository[ResourceType, OptionsType]) checkPaginationColumn(column string) error {
+	_, field := r.resourceHandler.Schema().GetFieldByNameOrAlias(column)
+	if field == nil {
+		return NewErrInvalidQuery("invalid property '%s' for pagination", column)
+	}
+	if !field.IsPaginated {
+		return newErrNotPaginatedField(column)
+	}
+
+	return nil
+}
+
+// checkCursor validates what a cursor, which the client sends back, says about the pagination.
+func (r *PaginatedResourceRepository[ResourceType, OptionsType]) checkCursor(q InitialPaginatedQuery[OptionsType]) error {
+	if err := r.checkPaginationColumn(q.Column); err != nil {
+		return err
+	}
+	if q.Order == nil || (*q.Order != paginate.OrderAsc && *q.Order != paginate.OrderDesc) {
+		return NewErrInvalidQuery("invalid cursor: missing or invalid order")
+	}
+
+	return nil
 }
 
 func NewPaginatedResourceRepository[ResourceType, OptionsType any](
